@@ -508,3 +508,125 @@ func c20r5(rc *core.RC) {
 		rc.OK("module/package-level-path-nodes", token.NoPos, "no package-level variable of json or decoder has a path node type")
 	}
 }
+
+// ---- C20.R6 an index selector is not negative ----
+
+// PathIndexNode.Get hands its selector to reflect.Value.Index after testing it against the length only from above. A
+// selector below zero must therefore never be built: where the builder turns the text of an index into a node, the
+// parsed number is refused when it is negative (or it is parsed as an unsigned number).
+func c20r6(rc *core.RC) {
+	p := rc.P
+	n := 0
+	for _, fd := range p.Funcs("decoder") {
+		if fd.Body == nil || p.FileBase(fd.Pos()) != "path.go" {
+			continue
+		}
+		info := p.Info(fd)
+		fn := p.FuncName(fd)
+		k := 0
+		var visit func(list []ast.Stmt, guards []*ast.IfStmt)
+		visit = func(list []ast.Stmt, guards []*ast.IfStmt) {
+			local := append([]*ast.IfStmt{}, guards...)
+			for _, st := range list {
+				// calls of addIndexNode in this statement (not in nested lists, which are visited below)
+				switch x := st.(type) {
+				case *ast.IfStmt:
+					local = append(local, x)
+					visit(x.Body.List, local)
+					if e, ok := x.Else.(*ast.BlockStmt); ok {
+						visit(e.List, local)
+					}
+					continue
+				case *ast.ForStmt:
+					visit(x.Body.List, local)
+					continue
+				case *ast.RangeStmt:
+					visit(x.Body.List, local)
+					continue
+				case *ast.SwitchStmt:
+					for _, c := range x.Body.List {
+						visit(c.(*ast.CaseClause).Body, local)
+					}
+					continue
+				case *ast.BlockStmt:
+					visit(x.List, local)
+					continue
+				}
+				ast.Inspect(st, func(m ast.Node) bool {
+					c, ok := m.(*ast.CallExpr)
+					if !ok || len(c.Args) != 1 {
+						return true
+					}
+					sel, isSel := c.Fun.(*ast.SelectorExpr)
+					if !isSel || sel.Sel.Name != "addIndexNode" {
+						return true
+					}
+					n++
+					k++
+					rc.Touch(fn)
+					key := fmt.Sprintf("%s/addIndexNode#%d selector-not-negative", fn, k)
+					arg := core.Unparen(c.Args[0])
+					if cv, isConv := arg.(*ast.CallExpr); isConv && len(cv.Args) == 1 {
+						arg = core.Unparen(cv.Args[0])
+					}
+					v := core.ObjOf(info, arg)
+					if v == nil {
+						rc.Unknown(key, c.Pos(), "the selector %s is not a variable", core.Src(p.Fset, c.Args[0]))
+						return true
+					}
+					// parsed unsigned?
+					unsigned := false
+					ast.Inspect(fd.Body, func(y ast.Node) bool {
+						if as, isAs := y.(*ast.AssignStmt); isAs && len(as.Rhs) == 1 && len(as.Lhs) >= 1 && core.ObjOf(info, as.Lhs[0]) == v {
+							if pc, isCall := core.Unparen(as.Rhs[0]).(*ast.CallExpr); isCall && core.CalleeName(info, pc) == "strconv.ParseUint" {
+								unsigned = true
+							}
+						}
+						return true
+					})
+					guarded := false
+					for _, g := range local {
+						if g.End() > c.Pos() {
+							continue // the call is inside this if: its condition is not an exit in front of the call
+						}
+						exits := false
+						for _, s2 := range g.Body.List {
+							if r, isRet := s2.(*ast.ReturnStmt); isRet && core.ReturnIsError(info, r) {
+								exits = true
+							}
+						}
+						if !exits {
+							continue
+						}
+						var disj func(e ast.Expr) bool
+						disj = func(e ast.Expr) bool {
+							e = core.Unparen(e)
+							be, isBin := e.(*ast.BinaryExpr)
+							if !isBin {
+								return false
+							}
+							if be.Op == token.LOR {
+								return disj(be.X) || disj(be.Y)
+							}
+							if be.Op == token.LSS && core.ObjOf(info, be.X) == v {
+								if z, isC := core.ConstInt(info, be.Y); isC && z == 0 {
+									return true
+								}
+							}
+							return false
+						}
+						if disj(g.Cond) {
+							guarded = true
+						}
+					}
+					rc.Check(unsigned || guarded, key, c.Pos(), "the number that becomes an index selector (%s) is refused when it is below zero before the node is made (Path.Get would hand it to reflect.Value.Index: CreatePath(\"$[-1]\") followed by Get on a slice panics)", v.Name())
+					return true
+				})
+			}
+		}
+		visit(fd.Body.List, nil)
+	}
+	if n < 1 {
+		rc.Unknown("decoder/path-index-nodes", token.NoPos, "no addIndexNode call found in path.go")
+	}
+}
